@@ -10,7 +10,7 @@ META = dict(
     property="C41",
     level="exploration",
     technique="round trip + RFC grammar + independent reference codecs; complete enumeration of short inputs over a hostile alphabet, Hypothesis for long ones",
-    level_text="imap4.encoder/decoder (and the registered 'imap4-utf-7' codec) are run on every BMP code point below U+3000 (thorough: every Unicode scalar value), every string of <=3 characters over a 14-character hostile alphabet, and random strings over all scalar values; output must match the RFC 3501 5.1.3 grammar, be readable by a reference decoder written from the RFC (base64 module + UTF-16BE), equal the canonical RFC encoding, and decode back with twisted's decoder. smtp.xtext_encode/xtext_decode are run on every byte string of length <=2 (both as bytes and in the latin-1 text form the codec API and twisted's callers use) and on random byte strings; output must match the RFC 3461 grammar, be readable by a reference decoder, and decode back.",
+    level_text="imap4.encoder/decoder (and the registered 'imap4-utf-7' codec) are run on every BMP code point below U+3000 (thorough: every Unicode scalar value), every string of <=3 characters over a 14-character hostile alphabet, a single shifted run of every length 0..130 characters (and sizes around 256/512/1024/4096/10000) for five 2-, 4- and 6-octet units, and random strings over all scalar values including long non-ASCII runs up to 200 characters; output must match the RFC 3501 5.1.3 grammar, be readable by a reference decoder written from the RFC (base64 module + UTF-16BE), equal the canonical RFC encoding, and decode back with twisted's decoder. smtp.xtext_encode/xtext_decode are run on every byte string of length <=2 (both as bytes and in the latin-1 text form the codec API and twisted's callers use) and on random byte strings; output must match the RFC 3461 grammar, be readable by a reference decoder, and decode back.",
     level_note="Reference codecs (ref_mutf7_encode/decode, ref_xtext_decode) written from RFC 3501 5.1.3 / RFC 2152 / RFC 3461 4, trusted; they use only base64 and UTF-16BE from the standard library, not Python's utf-7 codec. xtext_decode returns text: a str equal to the latin-1 reading of the bytes is accepted as 'the same bytes'.",
     design_ref="§5 C41",
     rule="mutf7 case = {kind:'mutf7', s}; non-trivial = s contains at least one character that needs a shift sequence or '&'. xtext case = {kind:'xtext', b, form}; non-trivial = b contains a byte that must be hex-escaped ('+', '=', <33, >126). Distinct by the whole case.",
@@ -128,6 +128,19 @@ def _mutf7_verdict(s):
 TLC = "\t\n\r"
 
 
+def _longest_run_octets(s):
+    """UTF-16 size of the longest run of characters that must share one shift sequence."""
+    best = cur = 0
+    for c in s:
+        if _printable(c):
+            cur = 0
+        else:
+            cur += 4 if ord(c) > 0xFFFF else 2
+            if cur > best:
+                best = cur
+    return best
+
+
 def _run_mutf7(ctx, case):
     s = case["s"]
     needs_shift = any(not _printable(c) for c in s)
@@ -146,6 +159,14 @@ def _run_mutf7(ctx, case):
         ctx.count("mutf7: astral")
     if any(c in s for c in "+,-/"):
         ctx.count("mutf7: one of + , - /")
+    longest = _longest_run_octets(s)
+    if longest > 57:
+        # more than one 76-character base64 line / 57-octet group
+        ctx.count("mutf7: shifted run > 57 UTF-16 octets (base64 > 76 chars)")
+    if longest > 114:
+        ctx.count("mutf7: shifted run > 114 UTF-16 octets")
+    if longest > 1024:
+        ctx.count("mutf7: shifted run > 1024 UTF-16 octets")
     v = _mutf7_verdict(s)
     if v is None:
         if needs_shift and len(ctx.samples) < 3:
@@ -201,6 +222,8 @@ def _run_xtext(ctx, case):
     if any(x < 33 for x in b):
         ctx.count("xtext: byte < 33")
     ctx.count("xtext form=" + form)
+    if len(b) > 57:
+        ctx.count("xtext: input longer than 57 octets")
     sig, detail, enc = _xtext_verdict(b, form)
     if sig is not None:
         if form == "bytes" and (0x2B in b or 0x3D in b):
@@ -245,6 +268,32 @@ def _short_mutf7_cases():
             yield dict(kind="mutf7", s="".join(t))
 
 
+RUN_CHARS = ["\xe9", "\x00", "\uffff", "\U0001F600", "\xe9\U0001F600"]
+RUN_LENGTHS = list(range(0, 131)) + [199, 200, 255, 256, 257, 500, 511, 512, 513, 1000, 1023, 1024, 1025,
+                                      4095, 4096, 4097, 10000]
+
+
+def _long_run_cases():
+    """Every shifted-run length 0..130 characters (several 57-octet / 76-character
+    base64 lines, for 2-, 4- and 6-octet units) and sizes around common buffer
+    boundaries, bare / between printable ASCII / two runs split by '&'."""
+    for n in RUN_LENGTHS:
+        for unit in RUN_CHARS:
+            run = (unit * n)[:n] if len(unit) == 1 else (unit * n)[:n]
+            yield dict(kind="mutf7", s=run)
+            if n <= 300:
+                yield dict(kind="mutf7", s="a" + run + "b")
+                yield dict(kind="mutf7", s=run + "&" + run[: n // 2] + "-")
+
+
+def _long_xtext_cases():
+    for n in (56, 57, 58, 75, 76, 77, 255, 256, 257, 1000, 1024, 4096):
+        for form in FORMS:
+            yield dict(kind="xtext", b=bytes((i * 7 + n) % 256 for i in range(n)), form=form)
+            yield dict(kind="xtext", b=b"a" * (n - 1) + b"\n", form=form)
+            yield dict(kind="xtext", b=b"+" * n, form=form)
+
+
 def _short_xtext_cases():
     for form in FORMS:
         yield dict(kind="xtext", b=b"", form=form)
@@ -265,11 +314,23 @@ CHAR = st.one_of(
     st.characters(min_codepoint=0, max_codepoint=0x7F),
     st.characters(min_codepoint=0x10000, max_codepoint=0x10FFFF),
 )
-MUTF7 = st.builds(lambda cs: dict(kind="mutf7", s="".join(cs)), st.lists(CHAR, max_size=24))
+NONASCII = st.one_of(st.sampled_from(["\xe9", "\x00", "\x7f", "\x80", "\uffff", "\u4e2d", "\U0001F600", "\U0010FFFF"]),
+                     st.characters(min_codepoint=0x80, blacklist_categories=["Cs"]),
+                     st.characters(min_codepoint=0, max_codepoint=0x1F))
+# long shifted runs: one repeated unit, or varied non-ASCII text, 1..200 characters
+LONG_RUN = st.one_of(
+    st.builds(lambda u, n: u * n, NONASCII, st.integers(1, 200)),
+    st.text(alphabet=st.characters(min_codepoint=0x80, blacklist_categories=["Cs"]), min_size=20, max_size=120),
+    st.builds(lambda u, n: u * n, NONASCII, st.sampled_from([28, 29, 30, 38, 39, 56, 57, 58, 76, 77, 114, 115])),
+)
+PIECE41 = st.one_of(CHAR, CHAR, CHAR, CHAR, CHAR, CHAR, CHAR, LONG_RUN)
+MUTF7 = st.builds(lambda cs: dict(kind="mutf7", s="".join(cs)), st.lists(PIECE41, max_size=16))
 XBYTE = st.one_of(st.sampled_from([0x2B, 0x3D, 0x20, 0x21, 0x7E, 0x7F, 0x00, 0xFF, 0x41, 0x34, 0x31]),
                   st.integers(0, 255))
 XTEXT = st.builds(lambda bs, f: dict(kind="xtext", b=bytes(bs), form=f),
-                  st.lists(XBYTE, max_size=24), st.sampled_from(FORMS))
+                  st.one_of(st.lists(XBYTE, max_size=24), st.lists(XBYTE, max_size=24), st.lists(XBYTE, max_size=24),
+                            st.binary(min_size=40, max_size=300).map(list)),
+                  st.sampled_from(FORMS))
 
 
 def _hyp_shard(sub, i):
@@ -280,6 +341,8 @@ def _hyp_shard(sub, i):
 def run(ctx):
     enumerate_run(ctx, _short_mutf7_cases(), run_case, stop_after_violation=False)
     enumerate_run(ctx, _short_xtext_cases(), run_case, stop_after_violation=False)
+    enumerate_run(ctx, _long_run_cases(), run_case, stop_after_violation=False)
+    enumerate_run(ctx, _long_xtext_cases(), run_case, stop_after_violation=False)
     if ctx.thorough:
         step = 0x110000 // 16
         ctx.shards(_cp_shard, [(i * step, (i + 1) * step) for i in range(16)])
@@ -288,12 +351,13 @@ def run(ctx):
         enumerate_run(ctx, _codepoint_cases(0, 0x3000), run_case, stop_after_violation=False)
         ctx.extra["codepoints_enumerated"] = "U+0000..U+2FFF"
     ctx.extra["exhaustive_small_scope"] = ("mutf7: all strings of <=3 characters over %r; xtext: all byte strings of "
-                                           "length <=2 (length <=1 in all three input forms)" % (HOSTILE,))
+                                           "length <=2 (length <=1 in all three input forms); mutf7 shifted runs of every length 0..130 characters "
+                                           "and %r for units %r" % (HOSTILE, RUN_LENGTHS[131:], RUN_CHARS))
     ctx.exhaustive = False
     if ctx.has_violation():
         return
     if ctx.thorough:
         ctx.shards(_hyp_shard, list(range(16)))
     else:
-        hyp_run(ctx, MUTF7, run_case, 4000, label="mutf7")
-        hyp_run(ctx, XTEXT, run_case, 3000, label="xtext")
+        hyp_run(ctx, MUTF7, run_case, 3000, label="mutf7")
+        hyp_run(ctx, XTEXT, run_case, 2500, label="xtext")
